@@ -280,6 +280,17 @@ func (g *GhostDB) evalCmd(st *State, cs *CmdSpec, cmd TV, pre map[string]*TableV
 		ce.effArgs = append(ce.effArgs, args)
 		ce.effCross = append(ce.effCross, cks)
 	}
+	if cs.Kind == "CreatePromiseAndTask" {
+		// ASSUMED INVARIANT (not proved here): a task whose id is invokeTaskId(p) exists only if
+		// promise p exists. Task ids made from registrations start with __resume:/__notify:,
+		// invocation task ids with __invoke:, and promises never disappear.
+		pk, err1 := g.evalArgs(env, []string{"cmd.PromiseCommand.Id"})
+		tk, err2 := g.evalArgs(env, []string{"cmd.TaskCommand.Id"})
+		if err1 == nil && err2 == nil {
+			st.assume(Implies(Not(rowPresent("promises", g.rowAt(st, pre["promises"], pk[0]))), Not(rowPresent("tasks", g.rowAt(st, pre["tasks"], tk[0])))))
+			g.x.notes["ASSUMED INVARIANT: a task with id invokeTaskId(p) exists only if promise p exists (used for CreatePromiseAndTask)"] = true
+		}
+	}
 	for _, rs := range cs.Rows {
 		if rs.Fn != "" {
 			var all []Term
